@@ -216,7 +216,10 @@ class SymEx:
                     kind, v, lo, hi = self.c.inputs[name]
                     if lo is not None and lo >= 0 and ang < 0:
                         ang += 2 * math.pi
-                    out[name] = ang
+                    # only a value inside the declared domain may replace the model's
+                    if (lo is None or ang >= float(lo) - 1e-12) and \
+                            (hi is None or ang <= float(hi) + 1e-12):
+                        out[name] = ang
         uf = {}
         for name, tab in getattr(self.c, 'ufuns', {}).items():
             uf[name] = [(_z3_to_float(m.eval(a, model_completion=True)),
